@@ -14,7 +14,7 @@ def chan(lean, which):
                subst=[(r"using namespace [^;]*;", ""), (r"using \w+ = [^;]*;", ""),
                       (r"src_channel_t (\w+)\s*= channel_convert<src_channel_t>\( get_color\(src,\s*(\w+)_t\(\)\)\);", r"uint8_t \1 = \2_in;"),
                       (r"std::int_fast16_t", "long"),
-                      (r"detail::clamp\((\(\([^;]*?\) >> 8\)), 0, 255\)", r"std::max(0, std::min(255, \1))"),
+                      (r"detail::clamp\(([^;]*?),\s*0,\s*255\s*\)", r"std::max(0, std::min(255, \1))"),
                       (r"get_color\( dst,\s*\w+\(\) \)\s*= \(dst_channel_t\) \w+;", ""),
                       (r"\}\s*$", "return (uint8_t) %s; }" % which)],
                doc="ycbcr_601 -> rgb, 8-bit destination: the %s channel" % which)
